@@ -603,8 +603,9 @@ def run_check(prop, specs, tier, seed, level="model_checking", jobs=None, bounds
         "wall_s": round(time.time() - t0, 2),
         "violations": n_viol,
     }
-    os.makedirs(os.path.join(VERIF, "evidence"), exist_ok=True)
-    json.dump(ev, open(os.path.join(VERIF, "evidence", "%s.json" % prop), "w"), indent=1)
+    evdir = os.environ.get("SYMX_EVIDENCE_DIR") or os.path.join(VERIF, "evidence")     # redirected only by development runs
+    os.makedirs(evdir, exist_ok=True)
+    json.dump(ev, open(os.path.join(evdir, "%s.json" % prop), "w"), indent=1)
     for ln in lines:
         print(ln)
     slow = sorted(results, key=lambda r: -r.wall)[:3]
